@@ -15,6 +15,7 @@ import os
 import pickle
 import select
 import struct
+import sys
 import traceback
 
 from . import interpose
@@ -22,6 +23,18 @@ from .interpose import Interposer, Op
 
 _O_STAT, _O_LSTAT = os.stat, os.lstat
 _O_WRITE, _O_CLOSE = os.write, os.close
+
+
+def _from_interposer():
+    """The base interposer itself calls os.path.lexists() in its open() wrapper: not a call of the actor."""
+    f = sys._getframe(2)
+    for _ in range(4):
+        if f is None:
+            return False
+        if f.f_code.co_filename == interpose.__file__:
+            return True
+        f = f.f_back
+    return False
 
 
 class StatInterposer(Interposer):
@@ -45,7 +58,7 @@ class StatInterposer(Interposer):
                         or kw.get("dir_fd") is not None):
                     return orig(path, *args, **kw)
                 rel = ip._rel(path)
-                if rel is None or getattr(ip._in_hook, "on", False):
+                if rel is None or getattr(ip._in_hook, "on", False) or _from_interposer():
                     return orig(path, *args, **kw)
                 k = ip._pre("stat", rel, None)
                 try:
